@@ -17,6 +17,7 @@ KDRIVER = os.path.join(LEAN, ".lake", "build", "bin", "kdriver")
 ALLOWED_AXIOMS = {"propext", "Classical.choice", "Quot.sound"}
 FORBIDDEN = re.compile(r"\bsorry\b|\badmit\b|^axiom\s|native_decide|bv_decide|implemented_by|\bunsafe\s|maxHeartbeats\s+0")
 NCPU = os.cpu_count() or 4
+SLOT_OPS = {"ENC", "DEC", "BPE", "UNI", "WP", "TODEF", "SER"}
 
 sys.path.insert(0, os.path.dirname(os.path.abspath(__file__)))
 import props  # per-property metadata
@@ -287,8 +288,14 @@ def main():
                 outs.pop()
             if len(ins) != len(outs):
                 cases["driver_errors"].append("driver answered %d of %d lines in %s" % (len(outs), len(ins), os.path.basename(f)))
+            slot_defs = {}
             for line, ans in zip(ins, outs):
                 request, impl = split_line(line)
+                if request.startswith("DEF "):
+                    slot = request.split(" ", 2)[1]
+                    if request.split(" ")[2] == "NEW":
+                        slot_defs[slot] = []
+                    slot_defs.setdefault(slot, []).append(request)
                 if impl == "":     # state-setting line (DEF …): driver must acknowledge
                     if not ans.startswith("ACK"):
                         cases["driver_errors"].append("no ACK for %s: %s" % (request[:80], ans[:200]))
@@ -310,6 +317,8 @@ def main():
                 if len(samples) < 6 and (cases["evaluations"] % 997 == 1):
                     samples.append({"request": request[:400], "impl": impl[:200], "model": model[:200], "spec": verdict[:80]})
                 entry = {"request": request, "impl": impl, "model": model, "spec": verdict, "file": os.path.basename(f)}
+                if op in SLOT_OPS:
+                    entry["context"] = slot_defs.get(request.split(" ")[1], [])
                 spec_fail = verdict.startswith("FAILS") or verdict == "NO-VERDICT" or model in ("BAD-OP", "MISS")
                 if verdict.startswith("FAILS"):
                     kf = matches_known(prop, request, known)
@@ -337,7 +346,7 @@ def main():
     if cases["impl_vs_spec"]:
         e = cases["impl_vs_spec"][0]
         path = write_replay(prop, "spec", {"property": prop, "kind": "implementation violates the specification",
-                                           "ops": [e["request"]], "impl": e["impl"], "model": e["model"],
+                                           "ops": e.get("context", []) + [e["request"]], "impl": e["impl"], "model": e["model"],
                                            "spec_verdict": e["spec"], "seed": seed, "tier": tier,
                                            "more": [x["request"] for x in cases["impl_vs_spec"][1:20]]})
         violations.append("VIOLATION property=%s replay=%s" % (prop, path))
@@ -360,8 +369,10 @@ def main():
                           % len(cases["impl_vs_model"]))
         payload = {"property": prop, "kind": "proof obligation or correspondence no longer checks",
                    "broken": broken, "seed": seed, "tier": tier,
-                   "ops": [x["request"] for x in cases["impl_vs_model"][:20]],
-                   "disagreements": cases["impl_vs_model"][:5],
+                   "ops": (cases["impl_vs_model"][0].get("context", []) if cases["impl_vs_model"] else []) +
+                          [x["request"] for x in cases["impl_vs_model"][:20]
+                           if x.get("context") == cases["impl_vs_model"][0].get("context")],
+                   "disagreements": [{k: v for k, v in x.items() if k != "context"} for x in cases["impl_vs_model"][:5]],
                    "logs": {"lake": report.get("lake_build", {}).get("log"), "extract": report.get("extract", {}).get("log", "")[-1500:],
                             "cargo": report.get("cargo_build", {}).get("log", "")[-1500:]}}
         path = write_replay(prop, "tie", payload)
